@@ -131,7 +131,7 @@ def main():
         "setup_cmd": "./check setup",
         "hooks": {
             "guard": "daniel729_chess_verif",
-            "enable": "RUSTFLAGS=\"--cfg daniel729_chess_verif\" (harness: harness/.cargo/config.toml; binary: lib/core.py build_bin)",
+            "enable": "RUSTFLAGS=\"--cfg daniel729_chess_verif\" (harness: harness/.cargo/config.toml, which also sets the value daniel729_chess_verif=\"window\" for the window-search hook; binary: lib/core.py build_bin)",
             "baseline_off_cmd": "cd /repo && cargo test --workspace --no-fail-fast --offline",
             "source_commits": list(reversed(hooks)),
             "add_only": True,
